@@ -19,6 +19,8 @@ CHECKS = {
  "C15": "Coq theorems (props/C15.v): from_ymd/from_ymdhms/from_hms/from_seconds/from_nanos/Offset constructors return Ok exactly on valid arguments (full u32/i32 domains) with the denoted value, otherwise an OutOfRange error whose range excludes the rejected value and contains every accepted value of that parameter; set_* never panic. Tied to /repo by a differential run comparing (name, min, max, value) of every error with the model.",
  "C16": "Coq theorems (props/C16.v): for every text, CronSchedule::parse succeeds exactly when the documented grammar recogniser (CronSpec.cron_spec) accepts it, and then each of the five value sets contains, over the field's range, precisely the values the items denote (*/n from the field minimum, names case-insensitively, weekday 7 = Sunday also inside ranges); otherwise it fails with InvalidFormat. Tied to /repo by a differential run over grammar-generated expressions and their single-edit mutations, sets read from Debug.",
  "C17": "Model of CronSchedule::next written with the same DateTime operations as the code (proved in C04/C05/C09) and compared with /repo under a pinned clock (hook H1) on histories of calls; every observed result is additionally checked inside Coq to be the least matching minute after max(clock, previous result) by an independent day-level oracle built from the C16 specification. Theorems in props/C17.v (see file header for what is proved).",
+ "C18": "Model of the TZif reader (header, data blocks, footer POSIX-TZ parser, rule dates, lookup) compared with /repo through hook H2 on real zone files (expected offsets from CPython's zoneinfo) and on synthesized v1/v2/v3 files (expected offsets from TzSpec.spec_lookup on the generating AST); theorems in props/C18.v relate the model's lookup to the specification (see file header for the proved part).",
+ "C19": "Model of the TZif reader compared with /repo on structure-aware mutations and hostile footers (outcome class error / offsets / panic); theorems in props/C19.v: the parser returns Ok or Err for every byte string and lookups on an accepted file never panic (see file header).",
  "C08": "Coq theorems (props/C08.v): every Time reachable through any list of public operations stays inside [0, 24 h) (induction over the operation list), add_/sub_/operators compute (t +/- amount) mod 24 h keeping the offset, constructors accept exactly in-day values, equal fields imply equal values. Tied to /repo by a differential run.",
 }
 def chk(pid, text):
@@ -29,7 +31,7 @@ def chk(pid, text):
             "level_note": NOTE, "technique": TECH}
 NA = {
 }
-PENDING = ["C11","C12","C13","C14","C18","C19","C20"]
+PENDING = ["C11","C12","C13","C14","C20"]
 m = {
  "version": 1,
  "setup_cmd": "./setup.sh",
